@@ -30,7 +30,8 @@ KEYS = {
     "plot_figsize", "bool2": "plot_usetex",
 }
 VALUE_TOKENS = [[], ["true"], ["False"], ["5"], ["-0.5"], ["2.0"], ["foo"],
-                ["[]"], ["none"], ["3", "4"], ["foo", "bar"]]
+                ["[]"], ["none"], ["3", "4"], ["foo", "bar"], ["1e3"],
+                ["-1."], ["2.5e-1", "7"]]
 
 
 def _ops():
@@ -199,6 +200,15 @@ class SettingsMachine(object):
             if after != before:
                 return st, ["%s raised %s and left a modified file" %
                             (self.describe(op), type(e).__name__)], name
+            if name == "set" and KEYS["palette"] not in arg and all(
+                    is_number(t) or t in before for t in arg):
+                # ... but numeric tokens for existing keys must be converted
+                return st, ["%s raised %s (%s): numeric tokens must be "
+                            "converted to numbers" %
+                            (self.describe(op), type(e).__name__, e)], name
+            if name in ("reset", "reset_all", "merge", "upgrade"):
+                return st, ["%s raised %s (%s)" % (self.describe(op),
+                                                   type(e).__name__, e)], name
             return st, [], name + "/raised:" + type(e).__name__
         after = self._read()
         st.d = after
@@ -303,6 +313,14 @@ class SettingsMachine(object):
 
 
 _ANY = object()
+
+
+def is_number(tok):
+    try:
+        float(tok)
+        return True
+    except ValueError:
+        return False
 
 
 # ------------------------------------------------------------------ Part B
@@ -618,6 +636,69 @@ def override_part(ctx):
     return acc
 
 
+def _non_default(dv):
+    if isinstance(dv, bool):
+        return not dv
+    if isinstance(dv, (int, float)):
+        return dv + 1
+    if isinstance(dv, list):
+        return list(dv) + ["x"]
+    return str(dv) + "_user"
+
+
+def run_reset_subset(keys):
+    """from a settings file in which EVERY key holds a user value: resetting
+    the subset restores exactly those keys"""
+    from evo.tools import settings
+    defaults = pristine_defaults()
+    user = {k: _non_default(v) for k, v in defaults.items()}
+    path = os.path.join(tempfile.mkdtemp(dir=os.getcwd(), prefix="c18s_"),
+                        "settings.json")
+    with open(path, "w") as f:
+        json.dump(user, f)
+    msgs = []
+    try:
+        settings.reset(type(settings.DEFAULT_PATH)(path),
+                       parameter_subset=list(keys))
+    except Exception as e:
+        return ["reset %s raised %s: %s" % (keys, type(e).__name__, e)]
+    with open(path) as f:
+        after = json.load(f)
+    if set(after) != set(user):
+        msgs.append("reset %s changed the key set" % (keys, ))
+    for k in user:
+        if k in keys and after.get(k) != defaults[k]:
+            msgs.append("reset %s did not restore %s" % (keys, k))
+        if k not in keys and after.get(k) != user[k]:
+            msgs.append("reset %s changed the user's value of %s to %r" %
+                        (keys, k, after.get(k)))
+    if defaults_polluted():
+        msgs.append("reset %s modified the package defaults in memory" %
+                    (keys, ))
+    return msgs
+
+
+def reset_each_part(ctx):
+    acc = Acc()
+    names = sorted(pristine_defaults())
+    subsets = [[k] for k in names]
+    subsets += [[a, b] for a, b in zip(names, names[1:])]
+    # (names that are prefixes of other names, both orders)
+    subsets += [[a, b] for a in names for b in names
+                if a != b and (b.startswith(a) or a.startswith(b))]
+    subsets += [[k, "not_a_key"] for k in names[::7]]
+    for keys in subsets:
+        msgs = run_reset_subset(keys)
+        acc.count("evaluations")
+        acc.count("transitions")
+        acc.count("nontrivial")
+        acc.outcome("reset-subset")
+        if msgs:
+            acc.violation("reset_each", "; ".join(msgs[:2]), {"keys": keys},
+                          {"kind": "reset-subset"})
+    return acc
+
+
 def run(ctx):
     depth = ctx.pick(2, 3)
     acc = hist.bfs(ctx, FACTORY, depth, max_states=ctx.pick(None, 60000))
@@ -635,6 +716,7 @@ def run(ctx):
     acc.merge(g)
     p = priority_part(ctx)
     p.merge(override_part(ctx))
+    p.merge(reset_each_part(ctx))
     acc.merge(p)
     acc.counters["states"] = st + p.counters["evaluations"]
     acc.counters["evaluations"] = acc.counters["transitions"]
@@ -648,7 +730,9 @@ def run(ctx):
         "evo_rpe/evo_traj 'tum' parsers (introspected) x 1-4 values, and %s "
         "ordered pairs of options: direct parsing vs -c <generated>; "
         "differing namespaces are executed both ways and compared by effect. "
-        "Part C: -c priority, per-run settings override, locked container. "
+        "Part C: -c priority, per-run settings override, locked container; "
+        "reset of every single key, adjacent pair and prefix-related pair "
+        "from a file in which every key holds a user value. "
         "non-trivial (B) = cases decided by executing both variants" %
         (depth, len(OPS), "all" if ctx.thorough else "every third of the"))
     return acc
@@ -668,6 +752,8 @@ def replay(part, case):
             pass
         a = override_part(_C())
         return [v["msg"] for v in a.violations if v["case"] == case]
+    if part == "reset_each":
+        return run_reset_subset(case["keys"])
     if part == "priority":
         class _C(object):
             pass
